@@ -35,8 +35,9 @@ func genC05(t *rapid.T) c05Case {
 		c.Where, c.Method = "exchange", []string{"s_exch", "s_exch_h"}[rapid.IntRange(0, 1).Draw(t, "em")]
 	default:
 		c.Where = "framework"
-		c.Framework = []string{"unknown_method", "version_mismatch", "max_response_bytes", "nil_result", "wrong_state", "bad_params", "session_lost", "draining", "draining"}[rapid.IntRange(0, 8).Draw(t, "fw")]
-		if c.Framework == "max_response_bytes" || c.Framework == "session_lost" || c.Framework == "draining" {
+		c.Framework = []string{"unknown_method", "version_mismatch", "max_response_bytes", "nil_result", "wrong_state", "bad_params", "session_lost", "draining", "draining",
+			"http_bad_token", "http_unknown_coding", "http_undecodable_body", "http_oversize", "http_wrong_ctype"}[rapid.IntRange(0, 13).Draw(t, "fw")]
+		if c.Framework == "max_response_bytes" || c.Framework == "session_lost" || c.Framework == "draining" || strings.HasPrefix(c.Framework, "http_") {
 			c.Transport = "http"
 		}
 		if c.Framework == "draining" {
@@ -84,8 +85,10 @@ func (c c05Case) call() lib.CallSpec {
 		return lib.CallSpec{Kind: "stream", Method: "s_exch", CancelAt: -1, Stream: &lib.StreamScript{ID: id, InitOutcome: "wrongstate"}}
 	case "bad_params":
 		return lib.CallSpec{Kind: "unary", Method: "u_str", BadParams: "wrongtype", Unary: &lib.UnaryScript{ID: id, Outcome: "value"}}
-	case "session_lost":
-		return lib.CallSpec{Kind: "unary", Method: "u_str", Unary: &lib.UnaryScript{ID: id, Outcome: "value"}}
+	case "session_lost", "http_unknown_coding", "http_undecodable_body", "http_oversize", "http_wrong_ctype":
+		return lib.CallSpec{Kind: "unary", Method: "u_str", Unary: &lib.UnaryScript{ID: id, Outcome: "value", Value: strings.Repeat("v", 64)}}
+	case "http_bad_token":
+		return lib.CallSpec{Kind: "stream", Method: "s_exch", CancelAt: -1, Stream: &lib.StreamScript{ID: id, InitOutcome: "ok", Turns: []lib.TurnSpec{{Act: "emit"}}}}
 	case "draining":
 		if c.Method == "s_open" {
 			return lib.CallSpec{Kind: "stream", Method: "s_open", CancelAt: -1, Ticks: 1, Stream: &lib.StreamScript{ID: id, InitOutcome: "ok"}}
@@ -135,9 +138,31 @@ func (c c05Case) collectErrors(out *lib.Outcome) []lib.BatchM {
 		if call.Kind == "stream" {
 			path += "/init"
 		}
-		resp := lib.PostArrow(h, path, req, hdr)
+		// refusals the HTTP layer writes itself, before or instead of a dispatch
+		switch c.Framework {
+		case "http_unknown_coding":
+			hdr = map[string]string{"Content-Encoding": "br"}
+		case "http_undecodable_body":
+			hdr = map[string]string{"Content-Encoding": "zstd"}
+			req = []byte("not a zstd frame at all")
+		case "http_oversize":
+			h.SetMaxRequestBytes(64)
+		case "http_bad_token":
+			path = "/s_exch/exchange"
+			req = lib.ContinuationBody(lib.Int64Batch(lib.InSchema, 1), "AAAAbm90LWEtdG9rZW4tYXQtYWxsLWJ1dC1sb25nLWVub3VnaC10by1wYXNzLWEtbGVuZ3RoLWNoZWNr", "", nil)
+		}
+		var resp lib.HTTPResp
+		if c.Framework == "http_wrong_ctype" {
+			resp = lib.DoHTTP(h, "POST", path, map[string]string{"Content-Type": "text/plain"}, req)
+		} else {
+			resp = lib.PostArrow(h, path, req, hdr)
+		}
 		if resp.Panic != "" {
 			out.Violate("C05/http-panic", "ServeHTTP panicked: %s", lib.Short(resp.Panic, 300))
+			return nil
+		}
+		if strings.HasPrefix(c.Framework, "http_") && !strings.HasPrefix(resp.Header.Get("Content-Type"), lib.ArrowCT) {
+			plainRefusal = true
 			return nil
 		}
 		bodies = append(bodies, resp.Decoded)
@@ -186,6 +211,9 @@ func (c c05Case) collectErrors(out *lib.Outcome) []lib.BatchM {
 
 var callTokenMemo string
 
+// plainRefusal: the last collectErrors met a refusal without an Arrow body.
+var plainRefusal bool
+
 func findTokens(body []byte) (cursor, callTok string) {
 	streams, _ := lib.SplitStreams(body)
 	for _, st := range streams {
@@ -208,6 +236,7 @@ func goTypeLooking(s string) bool {
 func runC05(c c05Case) (out lib.Outcome) {
 	lib.ResetEvents()
 	callTokenMemo = ""
+	plainRefusal = false
 	out.Label("where:"+c.Where, "transport:"+c.Transport)
 	if c.Framework != "" {
 		out.Label("fw:" + c.Framework)
@@ -221,6 +250,11 @@ func runC05(c c05Case) (out lib.Outcome) {
 	out.NonTrivial = c.Err == nil || c.Err.Kind != "rpc"
 	errs := c.collectErrors(&out)
 	if len(out.Violations) > 0 {
+		return
+	}
+	if plainRefusal {
+		// the HTTP layer answered without an Arrow body: no exception batch to judge
+		out.Label("plain-refusal:" + c.Framework)
 		return
 	}
 	if len(errs) != 1 {
@@ -305,7 +339,7 @@ func runC05(c c05Case) (out lib.Outcome) {
 
 var propC05 = lib.Prop[c05Case]{
 	ID: "C05",
-	Rule: "one failing call per case: error values (RpcError with any Type/Kind incl. exotic Type strings, plain, %w-wrapped RpcError/plain to depth 3, errors.Join, RpcError values that already carry a Traceback (as one relayed from an upstream call does), custom error types, kind-advertising custom error, panics with string/error/int/RpcError/runtime-error values) returned from unary handlers, stream init, producer turns and exchange turns, plus framework refusals (unknown method, protocol version, max_response_bytes, nil stream result, wrong state type, parameter mismatch, session lost, server draining as handed back by a unary / stream-init handler from ctx.OpenSession), debug on/off, pipe and HTTP (following continuations); " +
+	Rule: "one failing call per case: error values (RpcError with any Type/Kind incl. exotic Type strings, plain, %w-wrapped RpcError/plain to depth 3, errors.Join, RpcError values that already carry a Traceback (as one relayed from an upstream call does), custom error types, kind-advertising custom error, panics with string/error/int/RpcError/runtime-error values) returned from unary handlers, stream init, producer turns and exchange turns, plus framework refusals incl. those the HTTP layer writes itself (garbled continuation token, unknown / undecodable request coding, oversize body, wrong content type) (unknown method, protocol version, max_response_bytes, nil stream result, wrong state type, parameter mismatch, session lost, server draining as handed back by a unary / stream-init handler from ctx.OpenSession), debug on/off, pipe and HTTP (following continuations); " +
 		"oracle: exception_type is the RpcError's Type, the documented wire name of a typed framework error, else RuntimeError — never a Go type name; message carried; error_kind iff advertised; traceback/frames iff debug. Non-trivial: the error is not a bare RpcError.",
 	Gen:          genC05,
 	Run:          runC05,
